@@ -23,6 +23,7 @@ TRANSPARENT = [
     r"^protobuf::repeated::RepeatedField::into_vec$",
 ]
 TRANSPARENT_RE = [re.compile(x) for x in TRANSPARENT]
+SCALAR_RE = re.compile(r"^(?:[ui](?:8|16|32|64|128|size)|bool|char|f32|f64|\(\))$")
 
 
 class Site:
@@ -266,6 +267,7 @@ class Program:
                     changed = True
         self.mod = mod
         self._compute_readsets()
+        self._compute_rooted()
 
     def _compute_readsets(self):
         direct = {}
@@ -304,6 +306,270 @@ class Program:
         out = set()
         for k in self.short.get(sp, []):
             out |= self.rd[k]
+        return out
+
+    # ------------------------------------------------------------------ rooted effects (kill analysis)
+    # Safe Rust guarantees that an object reached from one parameter/local is not mutated through
+    # another one (no aliasing of &mut), so effects are summarised as (root, Adt.field) with root a
+    # parameter index, a captured variable ('u', name), a local ('l', n, only inside one body) or '?'.
+    def field_ty(self, key):
+        m = getattr(self, "_field_ty", None)
+        if m is None:
+            m = {}
+            amb = set()
+            for path, ad in self.facts.adts.items():
+                short = path.split("::")[-1]
+                for v in ad["variants"]:
+                    for f in v["fields"]:
+                        k = short + "." + f["name"]
+                        if k in m and m[k] != f["ty"]:
+                            amb.add(k)
+                        m[k] = f["ty"]
+            for k in amb:
+                m[k] = None
+            self._field_ty = m
+        return m.get(key)
+
+    def root_of(self, e, fn=None):
+        k = e[0]
+        if k == "param":
+            if fn is not None and isinstance(e[1], int) and e[1] < len(fn.body.locals) and SCALAR_RE.match(fn.body.local_ty(e[1])):
+                return frozenset()
+            return frozenset([e[1]])
+        if k == "local":
+            return frozenset([("l", e[1])])
+        if k == "upvar":
+            return frozenset([("u", e[1])])
+        if k == "field":
+            ty = self.field_ty(e[2])
+            if ty is not None and SCALAR_RE.match(ty):
+                return frozenset()
+            return self.root_of(e[1], fn)
+        if k in ("tfield", "vfield", "index", "cast", "discr", "len", "subslice"):
+            return self.root_of(e[1], fn)
+        if k == "call":
+            out = frozenset()
+            for a in e[2]:
+                out |= self.root_of(a, fn)
+            return out
+        if k == "callv":
+            return frozenset(["?"])
+        if k == "phi":
+            out = frozenset()
+            for a in e[3]:
+                out |= self.root_of(a, fn)
+            return out
+        if k in ("opaque", "closure_env"):
+            return frozenset(["?"])
+        return frozenset()
+
+    def _place_roots(self, a, pl, at):
+        if pl["p"] and pl["p"][0] == "*":
+            # through a reference held in the base local
+            fieldless = {"l": pl["l"], "p": []}
+            return self.root_of(a.expr_place(fieldless, at), a.fn)
+        if a.is_param(pl["l"]):
+            return frozenset([pl["l"]])
+        return frozenset([("l", pl["l"])])
+
+    def _stmt_effects(self, fn, a, bi, si, st, wr, rdset):
+        at = (bi, si)
+        if st["k"] in ("assign", "setdiscr"):
+            pl = st["place"]
+            fk = last_field_key(pl)
+            if fk is None and pl["p"] and pl["p"][-1] == "*":
+                adt = self._place_adt(fn, pl)
+                fk = adt.split("::")[-1] + ".*" if adt else None
+            if fk is not None and wr is not None:
+                for r in self._place_roots(a, pl, at):
+                    wr.add((r, fk))
+                nested = self._field_type_star(pl)
+                if nested:
+                    for r in self._place_roots(a, pl, at):
+                        wr.add((r, nested))
+        if rdset is not None and st["k"] == "assign":
+            for pl in rv_places(st["rv"]):
+                ks = set()
+                collect_place_fields(pl, ks)
+                if ks:
+                    roots = self._place_roots(a, pl, at)
+                    for fk in ks:
+                        for r in roots:
+                            rdset.add((r, fk))
+
+    def _field_type_star(self, pl):
+        """Overwriting a field of struct type X also overwrites X.*"""
+        last = None
+        for p in pl["p"]:
+            if isinstance(p, dict) and "f" in p and p.get("adt"):
+                last = p
+        if last is None or (pl["p"] and pl["p"][-1] is not last):
+            return None
+        ad = self.facts.adt(last["adt"])
+        if not ad:
+            return None
+        for v in ad["variants"]:
+            for f in v["fields"]:
+                if f["name"] == last["n"] and f.get("adt") and self.facts.adt(f["adt"]):
+                    return f["adt"].split("::")[-1] + ".*"
+        return None
+
+    def _call_effects(self, fn, a, bi, t, table, out, keep_locals):
+        """Map the callee's rooted summary (table: key -> set) through the actual arguments."""
+        fc = t["func"]
+        if not ("const" in fc and "fn" in fc["const"]):
+            return
+        sp = strip_generics(fc["const"]["fn"]["path"])
+        at = (bi, "term")
+        if sp in self.short:
+            argroots = None
+            for ck in self.short[sp]:
+                for (r, fk) in table.get(ck, ()):
+                    if r == "?":
+                        out.add(("?", fk))
+                        continue
+                    if isinstance(r, int):
+                        if argroots is None:
+                            argroots = [self.root_of(a.expr_operand(o, at), fn) for o in t["args"]]
+                        if r - 1 < len(argroots):
+                            for rr in argroots[r - 1]:
+                                if isinstance(rr, tuple) and rr[0] == "l" and not keep_locals:
+                                    continue
+                                out.add((rr, fk))
+                        else:
+                            out.add(("?", fk))
+                    # ('u', name) entries of closures are mapped at the creation site
+        elif table is self.eff:
+            for op in t["args"]:
+                pl = op.get("move") or op.get("copy")
+                if pl is None or pl["p"]:
+                    continue
+                ty = fn.body.local_ty(pl["l"])
+                if ty.startswith("&mut ") or ty.startswith("*mut "):
+                    e = a.expr_operand(op, at)
+                    tgt = ext_write_target(e, fn.body.local_adt(pl["l"]))
+                    if tgt:
+                        for rr in self.root_of(e, fn):
+                            if isinstance(rr, tuple) and rr[0] == "l" and not keep_locals:
+                                continue
+                            out.add((rr, tgt))
+
+    def _closure_effects(self, fn, a, bi, si, st, table, out, keep_locals):
+        rv = st["rv"]
+        if st["k"] != "assign" or rv.get("agg") != "closure":
+            return
+        cp = strip_generics(rv["closure"])
+        names = rv.get("fields", [])
+        caps = {}
+        for n, o in zip(names, rv["ops"]):
+            caps[n] = self.root_of(a.expr_operand(o, (bi, si)), fn)
+        for ck in self.short.get(cp, []):
+            for (r, fk) in table.get(ck, ()):
+                if isinstance(r, tuple) and r[0] == "u":
+                    for rr in caps.get(r[1], frozenset(["?"])):
+                        if isinstance(rr, tuple) and rr[0] == "l" and not keep_locals:
+                            continue
+                        out.add((rr, fk))
+                else:
+                    # effects on the closure's own arguments: whatever the caller feeds it
+                    out.add(("?", fk))
+
+    def _compute_rooted(self):
+        self.eff = {k: set() for k in self.facts.fns}
+        self.rdr = {k: set() for k in self.facts.fns}
+        dw, dr = {}, {}
+        for k, f in self.facts.fns.items():
+            a = self.an[k]
+            w, r = set(), set()
+            for bi in sorted(a.reach):
+                b = f.body.blocks[bi]
+                for si, st in enumerate(b["stmts"]):
+                    self._stmt_effects(f, a, bi, si, st, w, r)
+                t = b["term"]
+                if t["k"] == "call":
+                    fk = last_field_key(t["dest"])
+                    if fk:
+                        for rr in self._place_roots(a, t["dest"], (bi, "term")):
+                            w.add((rr, fk))
+                    for op in t["args"]:
+                        pl = op.get("move") or op.get("copy")
+                        if pl is not None:
+                            ks = set()
+                            collect_place_fields(pl, ks)
+                            for fk2 in ks:
+                                for rr in self._place_roots(a, pl, (bi, "term")):
+                                    r.add((rr, fk2))
+                elif t["k"] in ("switch", "assert"):
+                    op = t["op"] if t["k"] == "switch" else t["cond"]
+                    pl = op.get("move") or op.get("copy")
+                    if pl is not None:
+                        ks = set()
+                        collect_place_fields(pl, ks)
+                        for fk2 in ks:
+                            for rr in self._place_roots(a, pl, (bi, "term")):
+                                r.add((rr, fk2))
+            dw[k] = {(rr, fk) for rr, fk in w if not (isinstance(rr, tuple) and rr[0] == "l")}
+            dr[k] = {(rr, fk) for rr, fk in r if not (isinstance(rr, tuple) and rr[0] == "l")}
+        for k in self.facts.fns:
+            self.eff[k] = set(dw[k])
+            self.rdr[k] = set(dr[k])
+        changed = True
+        rounds = 0
+        while changed and rounds < 30:
+            changed = False
+            rounds += 1
+            for k, f in self.facts.fns.items():
+                a = self.an[k]
+                for table in (self.eff, self.rdr):
+                    cur = table[k]
+                    n0 = len(cur)
+                    for sp, s in self.calls_out[k]:
+                        b = f.body.blocks[s.block]
+                        if s.kind == "call":
+                            self._call_effects(f, a, s.block, b["term"], table, cur, False)
+                        else:
+                            self._closure_effects(f, a, s.block, s.idx, b["stmts"][s.idx], table, cur, False)
+                    if len(cur) != n0:
+                        changed = True
+
+    def block_effects(self, fn, bi, upto=None):
+        """Rooted writes {(root, Adt.field)} of the statements (idx < upto) and, if upto is None, the
+        terminator of a block, in the vocabulary of `fn` (local roots included)."""
+        a = self.an[fn.key]
+        b = fn.body.blocks[bi]
+        out = set()
+        for si, st in enumerate(b["stmts"]):
+            if upto is not None and upto != "term" and si >= upto:
+                break
+            self._stmt_effects(fn, a, bi, si, st, out, None)
+            self._closure_effects(fn, a, bi, si, st, self.eff, out, True)
+        if upto is None:
+            t = b["term"]
+            if t["k"] == "call":
+                self._call_effects(fn, a, bi, t, self.eff, out, True)
+                fk = last_field_key(t["dest"])
+                if fk:
+                    for rr in self._place_roots(a, t["dest"], (bi, "term")):
+                        out.add((rr, fk))
+        return out
+
+    def expr_footprint(self, e, fn=None):
+        """Rooted reads {(rootset, Adt.field)} an expression's value depends on."""
+        out = set()
+        for x in walk(e):
+            if x[0] == "field":
+                out.add((self.root_of(x[1], fn), x[2]))
+            elif x[0] == "call":
+                argroots = None
+                for ck in self.short.get(x[1], []):
+                    for (r, fk) in self.rdr.get(ck, ()):
+                        if r == "?" or not isinstance(r, int):
+                            out.add((frozenset(["?"]), fk))
+                        else:
+                            if argroots is None:
+                                argroots = [self.root_of(y, fn) for y in x[2]]
+                            if r - 1 < len(argroots):
+                                out.add((argroots[r - 1], fk))
         return out
 
     def modset(self, suffix_or_fn):
@@ -429,3 +695,35 @@ def collect_place_fields_rv(rv, out):
     if "ops" in rv:
         for o in rv["ops"]:
             collect_op_fields(o, out)
+
+
+def rv_places(rv):
+    out = []
+    for k in ("use", "cast", "a", "b", "repeat"):
+        if k in rv and isinstance(rv[k], dict):
+            pl = rv[k].get("copy") or rv[k].get("move")
+            if pl is not None:
+                out.append(pl)
+    for k in ("ref", "rawptr", "discr"):
+        if k in rv:
+            out.append(rv[k])
+    if "ops" in rv:
+        for o in rv["ops"]:
+            pl = o.get("copy") or o.get("move")
+            if pl is not None:
+                out.append(pl)
+    return out
+
+
+def killed_rooted(writes, footprint):
+    """writes: {(root, 'Adt.f')}; footprint: {(frozenset(roots), 'Adt.f')}"""
+    for rw, fw in writes:
+        wa, wf = fw.split(".", 1)
+        for rr, fr in footprint:
+            if fw != fr:
+                ra, rf = fr.split(".", 1)
+                if not (ra == wa and (wf == "*" or rf == "*")):
+                    continue
+            if rw == "?" or "?" in rr or rw in rr or not rr:
+                return True
+    return False
